@@ -40,10 +40,17 @@ def is_unqualified_table_expression(expression: exp.Expression) -> tuple[bool, b
 
     # names introduced by WITH are not tables, so they don't need a database or schema
     cte_names = {cte.alias for cte in expression.find_all(exp.CTE)}
-    node = next((t for t in expression.find_all(exp.Table) if t.db or t.name not in cte_names), None)
+    tables = [t for t in expression.find_all(exp.Table) if t.db or t.name not in cte_names]
 
-    if not node:
+    if not tables:
         return False, False
+
+    # the statement needs a database / schema if any of its tables does, not only the first one
+    node = tables[0]
+    # (the new name of ALTER TABLE .. RENAME TO is not a table that is looked up)
+    others = [
+        t for t in tables[1:] if isinstance(t.this, exp.Identifier) and not isinstance(t.parent, exp.RenameTable)
+    ]
 
     assert node.parent, f"No parent for table expression {node.sql()}"
 
@@ -56,8 +63,12 @@ def is_unqualified_table_expression(expression: exp.Expression) -> tuple[bool, b
             # "CREATE/DROP SCHEMA"
             no_database = not node.args.get("catalog")
             no_schema = False
-        elif parent_kind.upper() in {"TABLE", "VIEW"}:
-            # "CREATE/DROP TABLE/VIEW"
+        elif parent_kind.upper() == "TABLE":
+            # "CREATE/DROP TABLE", also CREATE TABLE .. AS SELECT / CLONE / LIKE
+            no_database = not node.args.get("catalog") or any(not t.args.get("catalog") for t in others)
+            no_schema = not node.args.get("db") or any(not t.args.get("db") for t in others)
+        elif parent_kind.upper() == "VIEW":
+            # "CREATE/DROP VIEW"
             no_database = not node.args.get("catalog")
             no_schema = not node.args.get("db")
         else:
@@ -81,8 +92,8 @@ def is_unqualified_table_expression(expression: exp.Expression) -> tuple[bool, b
             raise AssertionError(f"Unexpected parent kind: {parent_kind.name}")
 
     else:
-        no_database = not node.args.get("catalog")
-        no_schema = not node.args.get("db")
+        no_database = not node.args.get("catalog") or any(not t.args.get("catalog") for t in others)
+        no_schema = not node.args.get("db") or any(not t.args.get("db") for t in others)
 
     return no_database, no_schema
 
